@@ -1120,6 +1120,20 @@ func (r *runner) execOp(op *Op, tx *txCtx) {
 			r.viol("compact-err", "compact-err:"+errClass(err), fmt.Sprintf("CompactRange returned %v in a fault-free run", err))
 		}
 		r.probe("compact-range")
+	case "setro":
+		// SetReadOnly in the middle of a history: every write entry point
+		// answers (ErrReadOnly), then the DB is closed and reopened read-write
+		simrt.SetOp("SetReadOnly")
+		err := r.db.SetReadOnly()
+		simrt.SetOp("")
+		simrt.Progress()
+		if err == nil {
+			r.roProbes()
+			r.probe("setro-mid-history")
+		} else if !r.faulty {
+			r.viol("readonly", "readonly:setreadonly-failed", fmt.Sprintf("SetReadOnly returned %v", err))
+		}
+		fallthrough
 	case "reopen":
 		r.closeDB()
 		r.resetFailed()
